@@ -130,7 +130,12 @@ def _replay_group(args):
             else:
                 _, _T, j, dec_exp = rec[:4]
                 dec_exp = norm_err(dec_exp)
-                res, unchanged = subj.decode(j)
+                dkw = {}
+                if len(rec) > 5:
+                    for o in rec[5]:
+                        if o[0] == "dialect":
+                            dkw["dialect"] = subj.dialect_for(o[1])
+                res, unchanged = subj.decode(j, **dkw)
                 res = norm_err(res)
                 if not unchanged:
                     out["mism"].append({"clause": "input-mutated", "T": T, "input": j, "expected": "input unchanged", "actual": res})
@@ -184,6 +189,20 @@ def replay(printed, procs=16):
             agg["unknown"] += out["unknown"]
             agg["nontrivial"].update(out["nontrivial"])
     return agg
+
+
+def run_mc_with_table(module, wd, pairs, cfg=None, rep=None, label="", workers=16, timeout=1800):
+    """single-phase run with a Ctor table built for the given (kinds, inputs) pairs"""
+    tab = CtorTable()
+    for kinds, inputs in pairs:
+        tab.add(kinds, inputs)
+    path = os.path.join(wd, f"ctor_{module}.json")
+    with open(path, "w") as fh:
+        json.dump(tab.dump(), fh)
+    r = tlc.run_tlc(module, workdir=wd, workers=workers, timeout=timeout, cfg_text=cfg, env={"CTOR_FILE": path})
+    if rep is not None:
+        rep.add_tlc(r, label)
+    return r
 
 
 def run_mc(module, wd, cfg=None, rep=None, label="", workers=16, timeout=1800, env=None):
